@@ -306,8 +306,8 @@ Proof. repeat split; vm_compute; reflexivity. Qed.
    value.  _partial: the hypothesis [Json.valid d = true] is what is missing for the statement
    "wire_data d = Some d' -> d <> [] -> Json.parse d' = Json.parse d": it follows from
    "ErrsJson.compact d <> None -> Json.valid d = true" (the byte scanner accepts only what the tree
-   parser accepts), which is not proved here (both are tied to encoding/json by the differential
-   harness, lines G of C14 and the json family of C13). *)
+   parser accepts): that is ErrsScan.scanner_accepts_valid, from which ErrsScan.data_json_equal_value
+   drops the hypothesis (and ErrsScanC.compact_models_equal: the two models are the same function). *)
 Theorem data_json_equal_value_partial : forall d d',
   Errs.wire_data d = Some d' -> d <> [] -> Json.valid d = true ->
   Json.parse d' = Json.parse d /\ Json.compact d = Some d' /\ Json.parse d <> None.
